@@ -7,6 +7,8 @@ def run(ck):
     thorough = ck.tier == "thorough"
     n = int((3000000 if thorough else 60000) * ck.scale)
     jobs = [dict(exe=asan, args=["--mode", "run", "--cases", n, "--seed", sa.subseed(ck, i)], label="run%d" % i, timeout=14400) for i in range(16)]
+    # attribute values of 100 bytes .. 120 KB against pattern-valued attributes (library uri_matcher() and repeated groups)
+    jobs.append(dict(exe=asan, args=["--mode", "long", "--seed", sa.subseed(ck, 99)], label="long", timeout=14400))
     sa.run_jobs(ck, jobs, sets=("inputs", "rule_sets", "token_shapes"))
     if thorough:
         from .. import fuzz
@@ -22,7 +24,7 @@ def run(ck):
               "(nested/crossed/unterminated tags, quoting forms, entities, comments, obfuscated URI schemes, NUL/invalid UTF-8) plus byte mutations; oracles validate(filter(x)), idempotence, identity on valid input, "
               "independent lenient tokenizer vs the rule description, encoding well-formedness. non-trivial = distinct (rules, input) pairs",
               "pairs", "inputs", min_evals=100000,
-              required_nonzero=("inputs_valid", "inputs_changed", "o3_runs", "token_shapes", "rule_sets"))
+              required_nonzero=("inputs_valid", "inputs_changed", "o3_runs", "token_shapes", "rule_sets", "long_value_inputs", "long_values_accepted", "long_values_refused"))
 
 
 def replay(j):
